@@ -107,13 +107,23 @@ def havoc_value(I, st, v, hint):
 
 
 def eval_spec(I, st, expr_ast, what):
-    outs = list(I.ev(expr_ast, st))
-    if len(outs) != 1 or isinstance(outs[0][1], Exc):
-        raise Unsupported("%s forks or raises" % what)
-    st1, v = outs[0]
-    if st1 is not st:
-        raise EngineError("spec evaluation changed state identity")
-    return I.truth(v, st)
+    """Evaluate a specification expression (may fork internally; result merged into one formula)."""
+    trial = st.fork()
+    n0 = len(trial.pc)
+    outs = list(I.ev(expr_ast, trial))
+    if any(isinstance(v, Exc) for _, v in outs):
+        raise Unsupported("%s raises" % what)
+    if len(outs) == 1:
+        s1, v = outs[0]
+        for c in s1.pc[n0:]:
+            st.pc.append(c)
+        return I.truth(v, s1)
+    parts = []
+    for s1, v in outs:
+        t = I.truth(v, s1)
+        delta = s1.pc[n0:]
+        parts.append(z3.And(*(delta + [z3val(t)])) if delta else z3val(t))
+    return z3.Or(*parts)
 
 
 def run_invariant_loop(I, st, node, linv, qual, ordinal, head, after_body, body_stmts, orelse, pre_bind=None, auto_inv=None):
